@@ -984,6 +984,13 @@ func (e *Engine) convert(fr *Frame, s *State, x Value, from, to types.Type, pos 
 					return e.st.Zext(t, tw-t.S.W)
 				}
 			}
+			if fb.Info()&types.IsInteger != 0 && tb.Info()&types.IsString != 0 {
+				t := x.(*Term)
+				if t.IsConst() && t.Val.Cmp(big.NewInt(128)) < 0 {
+					return &StrV{Bytes: []*Term{e.st.BVu(t.Val.Uint64(), 8)}}
+				}
+				panic(unsupported("string(rune) of a symbolic or non-ASCII value at %s", pos))
+			}
 			if fb.Kind() == types.UnsafePointer && tb.Kind() == types.Uintptr {
 				panic(unsupported("uintptr(unsafe.Pointer) at %s", pos))
 			}
